@@ -12,14 +12,16 @@
    pop = deletion of that one vertex), and only then.
 
    NOT proved (T17b-e of DESIGN; the property is PARTIAL):
-     - de Casteljau correctness of bezier_subdivide over Q, the Catmull-Rom
-       polynomial identity, equidistance of arc points from the centre under
-       libm hypotheses, first/last arc vertex = a / c;
+     - de Casteljau correctness of bezier_subdivide over Q, equidistance of arc
+       points from the centre under libm hypotheses, first/last arc vertex = a / c
+       (the Catmull-Rom polynomial identity T17c IS proved below, over the reals);
      - the Hausdorff bound between path and exact curve (flatness 0.25, arc
        sagitta 0.1, 50 Catmull steps, 6 px osu! simplification).
    The bound is measured by the oracle of harness/src/c17.rs against curves
    evaluated exactly in f64 (de Casteljau, circumcircle, Catmull polynomial). *)
-From RM Require Import Model.ControlPoints Model.Curve Gen.Generated Proofs.BezierRefine Proofs.PathFacts.
+From RM Require Import Model.ControlPoints Model.Curve Gen.Generated Proofs.BezierRefine Proofs.PathFacts
+  Proofs.CatmullFacts.
+From Coq Require Import Reals.
 Open Scope Z_scope.
 
 (* ---------- the approximation tolerances named by the property ---------- *)
@@ -110,6 +112,30 @@ Theorem C17_catmull_vertex_count :
   length cat = ((length points - 1) * (2 * Z.to_nat catmull_detail))%nat.
 Proof. exact catmull_length. Qed.
 Print Assumptions C17_catmull_vertex_count.
+
+(* T17c [exact arithmetic]: the Catmull coefficient/evaluation formulas of the
+   model are written once over a record of scalar operations; read over the
+   reals they are the uniform Catmull-Rom polynomial, which interpolates v2 at
+   t = 0 and v3 at t = 1; the executable model instantiates the same two
+   functions with the IEEE binary32 operations and evaluates them at c/50 and
+   (c+1)/50, c = 0..49 (definition of catmull_subpath) *)
+Theorem C17_catmull_formula_is_catmull_rom :
+  forall v1 v2 v3 v4 t : R,
+  catmull_eval_g real_ops (catmull_coord_g real_ops v1 v2 v3 v4) t = catmull_rom v1 v2 v3 v4 t.
+Proof. exact catmull_is_catmull_rom. Qed.
+Print Assumptions C17_catmull_formula_is_catmull_rom.
+
+Theorem C17_catmull_interpolates_its_control_points :
+  forall v1 v2 v3 v4 : R,
+  catmull_eval_g real_ops (catmull_coord_g real_ops v1 v2 v3 v4) 0%R = v2 /\
+  catmull_eval_g real_ops (catmull_coord_g real_ops v1 v2 v3 v4) 1%R = v3.
+Proof. intros. split; [apply catmull_at_0|apply catmull_at_1]. Qed.
+Print Assumptions C17_catmull_interpolates_its_control_points.
+
+Theorem C17_model_uses_the_same_formulas :
+  catmull_coord = catmull_coord_g f32_ops /\ catmull_eval = catmull_eval_g f32_ops.
+Proof. exact model_uses_same_text. Qed.
+Print Assumptions C17_model_uses_the_same_formulas.
 
 (* ---------- the joint vertex appears once ---------- *)
 
